@@ -127,6 +127,11 @@ func NewCtx(prop, tier string) *Ctx {
 		fmt.Println("cannot create scratch dir:", err)
 		os.Exit(2)
 	}
+	if olds, _ := filepath.Glob(filepath.Join(verifHome(), "replays", fmt.Sprintf("%s-seed%d-*.json", prop, seed))); true {
+		for _, o := range olds {
+			os.Remove(o)
+		}
+	}
 	c := &Ctx{Prop: prop, Tier: tier, Seed: seed, Start: time.Now(), Tmp: tmp, knownHits: map[string]int{},
 		counters: map[string]int64{}, distinct: map[string]struct{}{}, extra: map[string]interface{}{}, level: "exploration"}
 	for _, f := range loadFindings() {
@@ -435,4 +440,25 @@ func truncate(s string, n int) string {
 		return s[:n] + "..."
 	}
 	return s
+}
+
+// CrashWitness stores the workspace and the journal tail of a server that died during a check whose
+// property is not about crashes, so that C01 (and a human) can reproduce it. Returns the path.
+func (c *Ctx) CrashWitness(srv *Server, files map[string]string) string {
+	dir := filepath.Join(verifHome(), "replays")
+	os.MkdirAll(dir, 0o755)
+	ci := srv.Crash()
+	tail := ""
+	if b, err := os.ReadFile(srv.JournalPth); err == nil {
+		lines := strings.Split(strings.TrimSpace(string(b)), "\n")
+		if len(lines) > 6 {
+			lines = lines[len(lines)-6:]
+		}
+		tail = strings.Join(lines, "\n")
+	}
+	path := filepath.Join(dir, fmt.Sprintf("crash-%s-seed%d-%s.json", c.Prop, c.Seed, hashStr(ci.Sig()+tail)))
+	b, _ := json.MarshalIndent(map[string]interface{}{"seen_by": c.Prop, "crash": ci, "signature": ci.Sig(), "journal_tail": tail,
+		"files": files, "stderr_head": truncate(srv.StderrHead(3000), 3000)}, "", " ")
+	os.WriteFile(path, b, 0o644)
+	return path
 }
